@@ -273,13 +273,23 @@ func (f *Frame) invoke(x *ssa.Call, pc string, st *State) {
 		cur := vc.ghostTerm(st, trn, "Tr."+short, "")
 		st.ghost[trn] = vc.def(sanitize(trn), "Tr."+short, fmt.Sprintf("(cons.%s %s %s)", short, ev, cur))
 		for name, srt := range vc.eng.monSorts {
-			if vc.eng.monIface[name] == short {
+			if vc.eng.monIface[name] == short && vc.eng.monMode[name] == vc.mode.String() {
 				mc := vc.ghostTerm(st, name, srt, "")
 				st.ghost[name] = vc.def(sanitize(name), srt, fmt.Sprintf("(%s.step %s %s)", name, mc, ev))
 			}
 		}
 	}
 	if con != nil {
+		newUse := false
+		for _, u := range con.Uses {
+			if !vc.uses[u] {
+				vc.uses[u] = true
+				newUse = true
+			}
+		}
+		if newUse {
+			vc.forceSpecTypes()
+		}
 		roots := map[string]SV{"recv": recv}
 		for j := 0; j < sig.Params().Len() && j < len(args); j++ {
 			roots[fmt.Sprintf("arg%d", j)] = args[j]
